@@ -106,9 +106,9 @@ theorem openBin_online_meta (A : Arith T) (nc : Nat) (fs : T) (fts : Option T)
     · simp [nsOf, Hdr.nc, hns]
 
 /-- `openCbin` under the round-trip law for the announced number of samples. -/
-theorem openCbin_meta (A : Arith T) (nc : Nat) (fs fts : T) (n cnc : Nat)
+theorem openCbin_meta (A : Arith T) (nc : Nat) (fs fts : T) (n cnc : Nat) (chfs : T)
     (hfs : A.isZero fs = false) (hrt : RoundTrip A fs n) :
-    ∃ fts', openCbin A (.ofMeta nc fs (some fts)) (n, cnc) = .ok (.ofMeta nc fs (some fts')) ∧
+    ∃ fts', openCbin A (.ofMeta nc fs (some fts)) ⟨n, cnc, chfs⟩ = .ok (.ofMeta nc fs (some fts')) ∧
       (cnc = nc → A.rint (A.mul fts' fs) = n) ∧
       ((n, cnc) ≠ (A.rint (A.mul fts fs), nc) → fts' = A.div (A.ofNat n) fs) := by
   by_cases hc : (n, cnc) = (A.rint (A.mul fts fs), nc)
